@@ -447,3 +447,8 @@ pub fn hook_int_type_token(min: Option<i128>, max: Option<i128>, ext: bool) -> S
     let backend = crate::generator::rasn::Rasn::default();
     backend.int_type_token(min, max, ext).to_string()
 }
+
+#[cfg(not(kani))]
+pub fn hook_assign_enumeral_numbers(root: &[Option<i128>], additions: &[Option<i128>]) -> (Vec<i128>, Vec<i128>) {
+    crate::lexer::verif_assign_enumeral_numbers(root, additions)
+}
